@@ -89,6 +89,29 @@ pub fn bytes_node(vt: &VT, shape: &Shape, x: &[u8]) -> Result<(&'static str, boo
 					return Err(format!("not monotone in the limit at {}", l));
 				},
 		}
+		// the consume-everything variant: Ok exactly when the limited decode is Ok and nothing is left
+		let a = guarded(|| (vt.decode_all_depth)(l, x)).map_err(|p| format!("decode_all_with_depth_limit({}) panicked: {}", l, p))?;
+		let want_ok = matches!(&r, Ok(ok) if ok.consumed == x.len());
+		if want_ok && l <= 1 {
+			// the lazy exploration never extends a string nobody looked past: do it here
+			let mut y = x.to_vec();
+			y.push(0);
+			let b = guarded(|| (vt.decode_all_depth)(l, &y)).map_err(|p| format!("decode_all_with_depth_limit({}) panicked: {}", l, p))?;
+			if b.is_ok() {
+				return Err(format!("limit {}: decode_all_with_depth_limit accepts a trailing byte after a complete value", l));
+			}
+		}
+		if a.is_ok() != want_ok {
+			return Err(format!(
+				"limit {}: decode_all_with_depth_limit {} although decode_with_depth_limit {}",
+				l,
+				if a.is_ok() { "succeeds" } else { "fails" },
+				match &r {
+					Ok(ok) => format!("consumes {} of {} bytes", ok.consumed, x.len()),
+					Err(_) => "fails".to_string(),
+				}
+			));
+		}
 	}
 	Ok((if un.is_ok() { "ok" } else { "err" }, c03::open_node(vt, shape, x)))
 }
@@ -213,7 +236,10 @@ fn stack_safety(tier: Tier) -> Acc {
 pub fn run(tier: Tier, reg: &[VT]) -> Report {
 	let mut rep = Report::new("C11", tier);
 	let t = tier.thorough();
-	let types: Vec<&VT> = reg.iter().filter(|v| has_container(&(v.shape)())).collect();
+	// types that cannot hold heap data have depth 0: every limit must behave like no limit (they are
+	// cheap, and fast paths keyed on "flat" types live exactly there)
+	let types: Vec<&VT> = reg.iter().collect();
+	let with_containers = types.iter().filter(|v| has_container(&(v.shape)())).count();
 	let b = if t { domain::Bound::quick() } else { domain::Bound::small() };
 	let acc = par(&types, |vt, acc| {
 		heartbeat(vt.name);
@@ -254,7 +280,7 @@ pub fn run(tier: Tier, reg: &[VT]) -> Report {
 			}
 		}
 	});
-	rep.part("every limit on valid encodings", "every registry type that can hold heap data x boundary values x every limit 0..=depth+2: result is the unlimited result or an error, monotone, Ok for L >= D_all, Err for L < D_min; wide-but-shallow vectors spanning several preallocation chunks; consume-all variant", acc);
+	rep.part("every limit on valid encodings", "every registry type (those that cannot hold heap data have depth 0) x boundary values x every limit 0..=depth+2: result is the unlimited result or an error, monotone, Ok for L >= D_all, Err for L < D_min; wide-but-shallow vectors spanning several preallocation chunks; consume-all variant", acc);
 
 	let all: Vec<&VT> = reg.iter().collect();
 	let acc = c03::explore_all("C11", "C11.bytes", bytes_node, &all, &c03::ALL, if t { 2 } else { 1 }, u64::MAX, false);
@@ -289,7 +315,7 @@ pub fn run(tier: Tier, reg: &[VT]) -> Report {
 	rep.rule = "case = (type, value, limit) for every limit 0..=depth+2, (type, byte string, limit), (wrapper stack, program of Input calls), (recursive type, 10^6 levels, limit); \
 		the exact threshold is deliberately not pinned: Ok is required for L >= D_all (every heap container on a path counts 1), Err for L < D_min (containers the decoder must recurse through; bulk byte/number buffers and empty collections do not count). non-trivial = depth > 0"
 		.into();
-	rep.bounds = json!({"types_with_containers": types.len(), "machine_depth": depth, "deep_levels": 1000000});
+	rep.bounds = json!({"types": types.len(), "types_with_containers": with_containers, "machine_depth": depth, "deep_levels": 1000000});
 	rep
 }
 
